@@ -1,5 +1,4 @@
 import Ntrip.Proofs.TimeHist
-import Ntrip.Guards.Time
 /-!
 # C17 — any start time within the week of the first observation gives correct times
 
@@ -56,13 +55,6 @@ theorem start_time_irrelevant_within_week (T1 T2 : Int) (evs : List Ev)
         | some p => rfl
   rw [times_true_any_start T1 evs h, times_true_any_start T2 evs (hpre evs {} h), hexp]
 
-/-- `New` starts the stored timestamps at the beginning of the week (tie T1): this is what
-    makes a first observation earlier than `T` harmless. -/
-theorem tie_new_prev_zero :
-    Gen.handler_New_timestampFromPreviousGPSMessage = "zero" ∧
-    Gen.handler_New_timestampFromPreviousGalileoMessage = "sameAsGPS" ∧
-    Gen.handler_New_timestampFromPreviousBeidouMessage = "zero" := by decide
-
 /-! ### Non-vacuity (tests): start Wed 2023-05-10 00:00 UTC, first GPS observation Mon
     2023-05-08 00:00:00 UTC (earlier than the start time), then Thursday. -/
 def sample : List Ev := [.obs .gps true 1683504000000, .obs .gps true 1683763200000]
@@ -73,8 +65,5 @@ example : Pre 1683676800000 {} sample := by
 
 example : runTimes (newState 1683676800000) sample =
     [(.ok 1683504000000, some 1683417582000), (.ok 1683763200000, some 1683417582000)] := by decide
-
-/-- Tie T1: guards and loop headers of the modelled code, regenerated from the source. -/
-theorem tie_guards_time : type_of% Ntrip.Guards.time := Ntrip.Guards.time
 
 end Ntrip.C17
